@@ -6,9 +6,8 @@ namespace SophiaModel.Driver.C16
 open SophiaModel Proto Depth
 open SophiaModel.Gen.RecursionSites
 
-/-- probe sizes of harness/props/c16 (`PROBE_SMALL`, `PROBE_LARGE`) -/
-def probeSmall : Nat := 100
-def probeLarge : Nat := 1000
+/-- probe sizes of harness/props/c16 (`PROBES`) -/
+def probes : List Nat := [100, 400, 1600]
 
 /-- 2 MiB -/
 def stackBytes : Nat := 2 * 1024 * 1024
@@ -32,49 +31,29 @@ def rank : SiteClass → Nat
 
 /-- classes (from the generated table) of the functions a harness site drives; `none` if the table
 lacks one of them -/
-def classesOf (fns : List Fn) : Option (List (Fn × SiteClass)) :=
-  fns.mapM (fun f => (classOf sites f).map (fun c => (f, c)))
+def classesOf (fns : List (Fn × Shape)) : Option (List (Fn × Shape × SiteClass)) :=
+  fns.mapM (fun fs => (classOf sites fs.1).map (fun c => (fs.1, fs.2, c)))
 
-def worst (cs : List (Fn × SiteClass)) : SiteClass :=
-  cs.foldl (fun w fc => if rank fc.2 > rank w then fc.2 else w) .loop
+def worst (cs : List (Fn × Shape × SiteClass)) : SiteClass :=
+  cs.foldl (fun w fc => if rank fc.2.2 > rank w then fc.2.2 else w) .loop
 
 /-- model depth of a harness site at size `n`: the deepest of its functions -/
-def depthAt (cs : List (Fn × SiteClass)) (n : Nat) : Nat :=
-  cs.foldl (fun d fc => max d (siteDepth fc.1 fc.2 n)) 1
+def depthAt (cs : List (Fn × Shape × SiteClass)) (n : Nat) : Nat :=
+  cs.foldl (fun d fc => max d (siteDepth fc.1 fc.2.2 fc.2.1 n)) 1
 
-/-- at least one more active call per additional element ⇒ linear -/
-def growthOf (cs : List (Fn × SiteClass)) : String :=
-  if depthAt cs probeLarge ≥ depthAt cs probeSmall + (probeLarge - probeSmall) then "linear" else "constant"
+/-- at least one more active call per additional element over both increments of the probe sizes ⇒
+linear (the harness applies the same rule to the measured extents, with 16 bytes per call) -/
+def isLinear (cs : List (Fn × Shape × SiteClass)) : Bool :=
+  match probes.map (depthAt cs) with
+  | [a, b, c] => b ≥ a + (400 - 100) && c ≥ b + (1600 - 400)
+  | _ => false
 
-/-- canonical result of the operation (number of matches / escapes written / solutions / list items /
-statements): the harness families are built so that it equals the size, except for the scans -/
-def resultOf (site : String) (n : Nat) : Option Nat :=
-  if site.startsWith "iter_" then some <|
-    -- computed with the loop formulation (equal to the recursive one by `next_rec_eq_next_loop`):
-    -- exactly one row is yielded
-    let k := 2
-    let r := nextLoop (famMs k n) (famCache k ⟨0, true⟩) (famRows k n)
-    let r2 := nextLoop (famMs k n) r.cache r.rest
-    (if r.item.isSome then 1 else 0) + (if r2.item.isSome then 1 else 0)
-  else if site == "nt_literal" then some <|
-    ((quotedStringLoop (List.replicate n '\n')).1.filter (· == '\\')).length
-  -- `acc ++ r` makes the two list-valued loop models quadratic: evaluated for small sizes only
-  else if site == "sparql_graph" then
-    if n > 5000 then none else some <|
-    match (graphLoop (fun g => (.ok [g] : Except Unit (List Nat))) (List.range n)).1 with
-    | .ok l => l.length
-    | .error _ => 0
-  else if site == "jsonld_list" then
-    if n > 5000 then none else some <|
-    match (populateListLoop (fun i => (.ok i : Except Unit Nat)) [] (List.range n)).1 with
-    | .ok l => l.length
-    | .error _ => 0
-  else some n
+def growthOf (cs : List (Fn × Shape × SiteClass)) : String := if isLinear cs then "linear" else "constant"
 
 def handle (line : String) : String :=
   match fields line with
   | ["run", site, size, profile] =>
-    match harnessFns site, size.toNat? with
+    match harnessFns site, (if size.startsWith "n=" then (size.drop 2).toNat? else none) with
     | some fns, some n =>
       if profile != "dev" && profile != "release" then "bad-op" else
       match classesOf fns with
@@ -82,15 +61,17 @@ def handle (line : String) : String :=
       | some cs =>
         let w := worst cs
         let dev := profile == "dev"
+        let lin := isLinear cs
         -- the frame-per-call assumption is made for unoptimised builds only; release is observed
         let growth := if dev then [kv "growth" (growthOf cs)] else []
-        let predicted :=
-          if dev && w == .selfRecursiveOnData && minFrame * n > stackBytes then [kv "outcome" "abort"] else []
+        let predicted := if dev && lin && minFrame * n > stackBytes then [kv "outcome" "abort"] else []
         -- the functions behind this site that the table classifies as data recursion
-        let recs := (cs.filter (fun fc => isRec fc.2)).map (fun fc => fnName fc.1)
+        let recs := (cs.filter (fun fc => isRec fc.2.2)).map (fun fc => fnName fc.1)
         reply ([kv "site" site, kv "buildfail" "0", kv "class" (className w),
-                kv "rec" (if recs.isEmpty then "-" else ",".intercalate recs)] ++ growth ++
-          [kvN "depth_small" (depthAt cs probeSmall), kvN "depth_large" (depthAt cs probeLarge)] ++ (match resultOf site n with | some r => [kvN "result" r] | none => []) ++ predicted ++ [kv "o.outcome" "ok"])
+                kv "rec" (if recs.isEmpty then "-" else ",".intercalate recs),
+                -- the child came back (no CPU limit, no kill) and processed all `size` elements
+                kv "completed" "yes"] ++ (if lin then [] else [kv "work" "ok"]) ++ growth ++
+          (probes.zipIdx.map (fun (p, i) => kvN s!"depth{i + 1}" (depthAt cs p))) ++ predicted ++ [kv "o.outcome" "ok"])
     | _, _ => "bad-op"
   | ["site", name, n] =>
     match harnessFns name, n.toNat? with
